@@ -12,12 +12,13 @@ git checkout -q -- . && git clean -fdq -e target
 DEMO=$(python3 -c "import json;print(json.load(open('$OUT/meta.json'))['demo_cmd'])")
 echo "demo_cmd: $DEMO" >> $LOG
 git apply $OUT/demo.diff || { echo "demo.diff does not apply" >> $LOG; exit 1; }
-( eval "$DEMO" ) > $OUT/demo_clean.out 2>&1; echo "demo on clean tree: rc=$?" >> $LOG
+touch src/lib.rs crates/ordinals/src/lib.rs crates/mockcore/src/lib.rs; ( eval "$DEMO" ) > $OUT/demo_clean.out 2>&1; echo "demo on clean tree: rc=$?" >> $LOG
 git apply $OUT/patch.diff || { echo "patch.diff does not apply" >> $LOG; exit 1; }
-cargo check --offline --workspace --tests > $OUT/check.out 2>&1; echo "cargo check with patch: rc=$?" >> $LOG
+touch src/lib.rs crates/ordinals/src/lib.rs crates/mockcore/src/lib.rs; cargo check --offline --workspace --tests > $OUT/check.out 2>&1; echo "cargo check with patch: rc=$?" >> $LOG
 ( eval "$DEMO" ) > $OUT/demo_patched.out 2>&1; echo "demo with patch: rc=$?" >> $LOG
 # existing unit tests with the patch but WITHOUT the demonstration
 git checkout -q -- . && git clean -fdq -e target && git apply $OUT/patch.diff
+touch src/lib.rs crates/ordinals/src/lib.rs crates/mockcore/src/lib.rs
 if git diff --stat | grep -q "crates/ordinals"; then
   cargo test --offline -p ordinals > $OUT/tests_ordinals.out 2>&1; echo "cargo test -p ordinals with patch: rc=$? $(grep '^test result' $OUT/tests_ordinals.out | head -1)" >> $LOG
 fi
